@@ -48,6 +48,7 @@ Section Orc.
       else if str_eqb name $"strip_fd_prefix" then Some (L (map (fun s => A (strip_fd_prefix s)) strs))
       else if str_eqb name $"sets_execution_var" then Some (L (map (fun s => sx_of_bool (sets_execution_var s)) strs))
       else if str_eqb name $"analyze_prelude" then Some (L (map (fun s => match analyze_prelude s with Some t => L [A t] | None => L [] end) strs))
+      else if str_eqb name $"has_inert_opener" then Some (L (map (fun s => sx_of_bool (has_inert_opener s)) strs))
       else if str_eqb name $"plain_raw" then Some (L (map (fun s => sx_of_bool (plain_raw s)) strs))
       else if str_eqb name $"scan_raw" then Some (L (map (fun s => sx_of_raw (scan_raw s)) strs))
       else None
